@@ -186,6 +186,8 @@ mod arc {
     impl ArcStr {
         pub fn new(v: &str) -> Self {
             let ptr = ArcStrInner::allocate(v.len());
+            #[cfg(aranya_core_verif)]
+            crate::verif::event("arc.alloc", ptr.as_ptr().cast::<u8>() as usize);
 
             // SAFETY: `ptr` is valid, we are initializing the fields now.
             unsafe {
@@ -237,6 +239,8 @@ mod arc {
 
     impl Clone for ArcStr {
         fn clone(&self) -> Self {
+            #[cfg(aranya_core_verif)]
+            crate::verif::event("arc.clone", self.ptr.as_ptr().cast::<u8>() as usize);
             let old = self.inner().strong.fetch_add(1, atomic::Ordering::Relaxed);
 
             // This will only fail if someone does `loop { mem::forget(x.clone()) }`.
@@ -249,12 +253,16 @@ mod arc {
 
     impl Drop for ArcStr {
         fn drop(&mut self) {
+            #[cfg(aranya_core_verif)]
+            crate::verif::event("arc.drop", self.ptr.as_ptr().cast::<u8>() as usize);
             if self.inner().strong.fetch_sub(1, atomic::Ordering::Release) != 1 {
                 return;
             }
 
             atomic::fence(atomic::Ordering::Acquire);
 
+            #[cfg(aranya_core_verif)]
+            crate::verif::event("arc.free", self.ptr.as_ptr().cast::<u8>() as usize);
             let layout = Layout::for_value(self.inner());
 
             // SAFETY: We have ensured we are the only owner of this arc
